@@ -1,41 +1,85 @@
 '''C10 — material cards become compositions with the same nuclides and amounts.
 
 Theorems: coq/Properties/C10.v.  Ties (correspondence by execution):
-  card   : tokens of an M card -> compositionConversionMCNPToT4 +
-           extract_isotopes_fractions  vs  Model.convert_card
-  block  : whole conversion of a deck, COMPOSITION block read back from the
-           written file  vs  Model.convert_card + Model.block_of at binary64
-  symbols: the 118 entries of the element enum vs Model.symbol
-Independent oracle (search / sweep): the generator's abstract card against the
-written file (periodic table written here, sums and ratios recomputed).'''
+  split     : contents of data cards -> MIP datacard.split  vs  Model.data_split
+  materials : contents of all data cards of a deck -> get_material_composition
+              vs  Model.get_materials
+  symbols   : str(Z) through both element enums  vs  Model.atomic_value/element_name
+  card      : tokens of an M card -> compositionConversionMCNPToT4 +
+              extract_isotopes_fractions  vs  Model.convert_card
+  text      : whole conversions: the COMPOSITION block of the written file,
+              byte for byte, vs Model.composition_lines run on the data-card
+              contents and the final cell dictionary captured from the run
+              (number renderings = the implementation's own strings; the
+              concentrations the code computes are compared numerically)
+Independent oracle (sweep): the COMPOSITION block read back line by line
+against an independent reading of the deck (ZAID arithmetic, periodic table
+written here, reachability of materials through FILL, sums and ratios
+recomputed with math.fsum).'''
 import json
 import math
 import random
+import re
 
 import common
 import impl
-from common import cstr, clist, cfloat, cbool, copt, cpair, cn
+from common import cstr, clist, cfloat, cbool, copt, cpair, cn, cz
 
-THEOREMS = ['C10_zaid_split', 'C10_card_converted', 'C10_mixed_signs_rejected',
-            'C10_rescale_sum', 'C10_rescale_proportional',
-            'C10_block_negative_density', 'C10_block_atom_density']
+THEOREMS = [
+    'C10_material_card_recognised', 'C10_material_card_shape',
+    'C10_other_cards_ignored', 'C10_material_cards_recognised',
+    'C10_element_table', 'C10_atomic_number_range',
+    'C10_zaid_split', 'C10_card_converted', 'C10_mixed_signs_rejected',
+    'C10_repeated_nuclide', 'C10_unused_card_still_checked',
+    'C10_rescale_sum', 'C10_rescale_proportional', 'C10_rescale_entry',
+    'C10_one_block_per_material_density', 'C10_block_order',
+    'C10_block_origin',
+    'C10_block_count', 'C10_block_lines',
+    'C10_mass_density_block', 'C10_atom_density_block',
+    'C10_mass_fractions_with_atom_density',
+    'C10_mass_fractions_with_atom_density_refuted',
+    'C10_text_shape',
+]
 TRUSTED = [
-    'hand-written model coq/C10/Model.v (modelled, tied by execution only)',
-    'decimal string -> binary64 (float()) and %.15e rendering: not modelled, '
-    'the harness passes float(normalize_float(s)) values to the model and '
-    'compares written concentrations at 1e-14 relative',
+    'hand-written model coq/C10/Model.v (tied by execution only)',
+    'normalize_float (C09\'s), float() and the %.15e rendering are parameters '
+    'of the model: the harness passes the implementation\'s own '
+    'normalize_float(s), float(normalize_float(s)) and the written amount '
+    'strings; computed concentrations are compared at 1e-14 relative',
     'math.fsum vs left-to-right float sum: absorbed by the tolerance',
-    'harness: generators, impl.T4File reader, PEG shim replacing TatSu',
+    'Card.content() / get_cards of MIP (comment stripping, continuation '
+    'lines): the model starts from the one-line content of each data card',
+    'the final cell dictionary (importance, universe, fillid, materialID, '
+    'density of every cell after LIKE/lattice/FILL development) is captured '
+    'from the run, not modelled here (C09, C12, C15)',
+    'harness: generators, line reader of the COMPOSITION block, PEG shim '
+    'replacing TatSu',
 ]
 ASSUMPTIONS = [
-    'ZAIDs are decimal digits (no sign, blanks or underscores): the model\'s '
-    'int() is narrower than Python\'s',
+    'ZAIDs and material numbers are decimal digits (no sign, blanks or '
+    'underscores): the model\'s int() is narrower than Python\'s',
     'well-formed cards: fraction spellings do not start with a blank or a '
     'second minus sign; suffixes and ZAIDs contain no "="',
+    'ASCII decks',
 ]
 HEADER = ('From Coq Require Import List NArith ZArith Bool String Ascii '
           'PrimFloat.\nFrom T4V Require Import Base.Str Base.Scalar '
           'C10.Model C10.Exec.\nOpen Scope string_scope.\n')
+
+CLS_EMPTY = 'mass_fractions_atom_density_empty_block'
+CLS_FORTRAN = 'fortran_spelled_fraction_copied'
+
+
+def fortran_only(spelling):
+    '''An MCNP number written in a way only Fortran reads: D exponent marker
+    or an exponent without marker (1.5d-1, 6.25-2, 3.0+1).'''
+    if impl.is_t4_number(spelling):
+        return False
+    try:
+        impl.mcnp_float(spelling)
+    except ValueError:
+        return False
+    return True
 
 PERIODIC = ('H HE LI BE B C N O F NE NA MG AL SI P S CL AR K CA SC TI V CR MN '
             'FE CO NI CU ZN GA GE AS SE BR KR RB SR Y ZR NB MO TC RU RH PD AG '
@@ -46,9 +90,19 @@ PERIODIC = ('H HE LI BE B C N O F NE NA MG AL SI P S CL AR K CA SC TI V CR MN '
 
 FRAC_SPELLINGS = ['1', '0.5', '2.5e-2', '1.0', '0.25', '3', '7.5E-1', '1e-3',
                   '0.125', '4.0e1', '6.25-2', '.5', '2.', '1.5d-1', '0.0625',
-                  '12', '100.0', '9.765625e-4', '3.0+1']
-SUFFIXES = ['70c', '80c', '31c', '50d', '00c', '710nc', 'c', '']
-KEYWORDS = ['nlib=70c', 'gas=1', 'plib=04p', 'estep=10', 'cond=-1']
+                  '12', '100.0', '9.765625e-4', '3.0+1', '0.3', '0.7',
+                  '1.1e-5', '0.1', '33.3', '6.0221e-1']
+SUFFIXES = ['70c', '80c', '31c', '50d', '00c', '710nc', 'c', '', '70C', '03p']
+KEYWORDS = ['nlib=70c', 'gas=1', 'plib=04p', 'estep=10', 'cond=-1',
+            'hlib=24h', 'pnlib=70u', 'NLIB=80c']
+# data cards that are not material cards (none is read by the converter)
+OTHER_CARDS = ['mt{n} lwtr.01t', 'mt{n} grph.10t poly.10t', 'mx{n}:n j 8016.70c',
+               'mx{n}:p 1001 6012', 'mode n', 'mode n p', 'mpn{n} 0 8016',
+               'mgopt f 4', 'nps 1000', 'print', 'MT{n} hwtr.10t',
+               'Mx{n}:h j model', 'mphys on', 'sdef pos=0 0 0 erg=1',
+               'f4:n 1', 'e4 1 10', 'kcode 1000 1 10 20', 'ksrc 0 0 0',
+               'mesh geom=xyz', 'phys:n 20', 'cut:n 1e8', 'totnu', 'void',
+               'fm4 1 {n} -6', 'prdmp j j 1']
 
 
 # ---- generation -----------------------------------------------------------
@@ -59,25 +113,39 @@ def gen_nuclide(rng, neg):
     a = 0 if rng.random() < 0.2 else rng.choice(
         [1, 2, 9, 10, 16, 56, 99, 100, 235, 238, 999, rng.randint(1, 999)])
     suf = rng.choice(SUFFIXES) if rng.random() < 0.6 else None
-    return {'z': z, 'a': a, 'suf': suf, 'neg': neg,
+    zlead = rng.choice([1, 2]) if rng.random() < 0.06 else 0
+    return {'z': z, 'a': a, 'suf': suf, 'neg': neg, 'zlead': zlead,
             'frac': rng.choice(FRAC_SPELLINGS)}
 
 
-def gen_card(rng, valid=True):
-    '''Abstract card: list of items; valid cards have one sign throughout.'''
+def gen_card(rng, valid=True, neg=None):
+    '''Abstract card: list of items; valid cards have one sign throughout.
+    Keyword entries sit in every position (front, between pairs, runs of
+    several, end); nuclides are sometimes repeated (same ZAID, own fraction,
+    possibly another library suffix).'''
     n = rng.choice([1, 1, 2, 2, 3, 4, 5, 8, 13, 30]) if rng.random() < 0.8 \
         else rng.randint(1, 30)
-    neg = rng.random() < 0.5
+    if neg is None:
+        neg = rng.random() < 0.5
+    p_key = rng.choice([0.0, 0.15, 0.15, 0.5])
     items = []
     for _ in range(n):
-        if rng.random() < 0.15:
+        while rng.random() < p_key:
             items.append({'key': rng.choice(KEYWORDS)})
-        items.append(gen_nuclide(rng, neg))
-    if rng.random() < 0.15:
+        nucs = [it for it in items if 'key' not in it]
+        if nucs and rng.random() < 0.2:
+            nuc = dict(rng.choice(nucs))          # repeated nuclide
+            nuc['frac'] = rng.choice(FRAC_SPELLINGS)
+            if rng.random() < 0.5:
+                nuc['suf'] = rng.choice(SUFFIXES)
+            items.append(nuc)
+        else:
+            items.append(gen_nuclide(rng, neg))
+    while rng.random() < p_key:
         items.append({'key': rng.choice(KEYWORDS)})
     if not valid:
         fault = rng.choice(['mixed', 'mixed', 'badz', 'short', 'nofrac',
-                            'alpha', 'z0'])
+                            'alpha', 'z0', 'keymid', 'empty'])
         nucs = [it for it in items if 'key' not in it]
         victim = rng.choice(nucs)
         if fault == 'mixed':
@@ -88,7 +156,7 @@ def gen_card(rng, valid=True):
                 if all(x['neg'] == nucs[0]['neg'] for x in nucs):
                     nucs[0]['neg'] = not nucs[0]['neg']
         elif fault == 'badz':
-            victim['z'] = rng.choice([119, 120, 200, 999])
+            victim['z'] = rng.choice([119, 120, 200, 999, 1000])
         elif fault == 'z0':
             victim['z'] = 0
         elif fault == 'short':
@@ -98,6 +166,10 @@ def gen_card(rng, valid=True):
         elif fault == 'nofrac':
             items = [it for it in items if 'key' not in it]
             items[-1]['drop_frac'] = True
+        elif fault == 'keymid':
+            victim['keymid'] = rng.choice(KEYWORDS)
+        elif fault == 'empty':
+            items = [it for it in items if 'key' in it]
         return items, fault
     return items, None
 
@@ -108,25 +180,165 @@ def tokens_of(items):
         if 'key' in it:
             toks.append(it['key'])
             continue
-        tok = it.get('raw', f'{it["z"]}{it["a"]:03d}')
+        tok = it.get('raw', '0' * it.get('zlead', 0) + f'{it["z"]}{it["a"]:03d}')
         if it['suf'] is not None:
             tok += '.' + it['suf']
         toks.append(tok)
+        if 'keymid' in it:
+            toks.append(it['keymid'])
         if not it.get('drop_frac'):
             toks.append(('-' if it['neg'] else '') + it['frac'])
     return toks
 
 
-def render_card(num, toks, rng):
-    '''M card text with continuation lines (5+ leading blanks).'''
-    lines = [f'm{num}']
-    per_line = rng.choice([2, 4, 6])
-    for k in range(0, len(toks), per_line):
-        lines.append('      ' + ' '.join(toks[k:k + per_line]))
+def render_card(head, toks, rng):
+    '''Card text: continuation lines (5+ leading blanks or a trailing &),
+    $ comments, runs of blanks.'''
+    style = rng.choice(['blank', 'blank', 'amp', 'one'])
+    per_line = rng.choice([2, 4, 6, 7])
+    if style == 'one' and len(toks) <= 10:
+        return head + ' ' + ' '.join(toks)
+    lines = []
+    first = rng.choice([0, 0, 2]) if toks else 0
+    chunks = [toks[:first]] + [toks[k:k + per_line]
+                               for k in range(first, len(toks), per_line)]
+    for k, chunk in enumerate(chunks):
+        sep = rng.choice([' ', ' ', '  '])
+        text = sep.join(chunk)
+        if k == 0:
+            text = (head + ' ' + text).rstrip()
+        elif style == 'amp':
+            text = rng.choice(['', ' ', '  ']) + text
+        else:
+            text = ' ' * rng.choice([5, 6, 9]) + text
+        if style == 'amp' and k < len(chunks) - 1:
+            text += ' &'
+        elif rng.random() < 0.15:
+            text += ' $ ' + rng.choice(['comment', 'm99 1001 1', 'nlib=70c',
+                                        '8016 0.5'])
+        lines.append(text)
     return '\n'.join(lines)
 
 
-def deck_of(cards, densities, rng):
+def mat_head(num, rng):
+    head = rng.choice(['m', 'm', 'M']) + rng.choice(['', '', '', '0', '00']) \
+        + str(num)
+    return rng.choice(['', '', ' ', '   ']) + head
+
+
+DENSITY_GROUPS = [
+    ['-1.0', '-1.00', '-1.', '-1', '-1.0e0', '-10.0-1'],
+    ['-2.7', '-2.70', '-2.7e0', '-0.27e1', '-27-1'],
+    ['-0.001', '-1e-3', '-1.0-3', '-1.d-3', '-.001'],
+    ['-19.1', '-19.10', '-1.91e1', '-1.91+1'],
+    ['0.1', '0.10', '1e-1', '1.0-1', '.1'],
+    ['0.0602', '6.02e-2', '6.02-2', '0.06020'],
+    ['1.0', '1', '1.', '1.00'],
+    ['8.5e-2', '8.50e-2', '0.085', '8.5-2'],
+    ['-1.205-3', '-1.205e-3', '-0.001205'],
+    ['2.5', '2.50', '25e-1'],
+    ['-11.35', '-11.350', '-1.135e1'],
+]
+
+
+def gen_deck(rng):
+    '''Abstract deck: materials (some unused, some used only by dead / filled
+    / never-filled-universe cells), other data cards, cells of every kind.'''
+    n_mats = rng.randint(1, 5)
+    nums = rng.sample(range(1, 120), n_mats)
+    mats = []
+    for num in nums:
+        items, _ = gen_card(rng, valid=True)
+        mats.append({'num': num, 'items': items, 'head': mat_head(num, rng)})
+    cells = []       # level-0 shells, in order
+    universes = {}   # u -> list of (mat, rho)
+
+    def use(num):
+        group = rng.choice(DENSITY_GROUPS)
+        return num, rng.choice(group)
+
+    roles = {}
+    for num in nums:
+        role = rng.choice(['plain', 'plain', 'plain', 'multi', 'multi',
+                           'dead', 'filled', 'universe', 'orphan',
+                           'unused', 'plain+dead', 'universe+plain'])
+        roles[num] = role
+        if role in ('plain', 'plain+dead', 'universe+plain'):
+            cells.append(('plain',) + use(num))
+        if role == 'multi':
+            # one material at several densities, in several spellings
+            for group in rng.sample(DENSITY_GROUPS, rng.choice([1, 2, 3])):
+                for rho in rng.sample(group, rng.choice([1, 2, 3])):
+                    cells.append(('plain', num, rho))
+        if role in ('dead', 'plain+dead'):
+            cells.append(('dead',) + use(num))
+        if role == 'filled':
+            u = len(universes) + 1
+            universes[u] = [(0, None), (0, None)]
+            cells.append(('filled', num, use(num)[1], u))
+        if role in ('universe', 'universe+plain'):
+            u = len(universes) + 1
+            other = rng.choice(nums)
+            universes[u] = [use(num), use(other) if rng.random() < 0.5
+                            else (0, None)]
+            container_dead = rng.random() < 0.25
+            cells.append(('fill0dead' if container_dead else 'fill0', 0,
+                          None, u))
+        if role == 'orphan':
+            u = len(universes) + 1
+            universes[u] = [use(num), (0, None)]   # never used by a FILL
+    if not any(c[0] in ('plain', 'filled', 'fill0') for c in cells) \
+            or rng.random() < 0.2:
+        cells.append(('plain', 0, None))      # a live void cell
+    rng.shuffle(cells)
+    others = []
+    for _ in range(rng.choice([0, 1, 2, 4])):
+        others.append(rng.choice(OTHER_CARDS).format(
+            n=rng.choice(nums + [rng.randint(1, 99)])))
+    return {'mats': mats, 'cells': cells, 'universes': universes,
+            'others': others, 'roles': roles}
+
+
+def render_deck(deck, rng):
+    lines, surfs = [], []
+    k = 0
+    for cell in deck['cells']:
+        k += 1
+        geom = (f'{k - 1} ' if k > 1 else '') + f'-{k}'
+        surfs.append(f'{k} so {k}')
+        kind, num, rho = cell[0], cell[1], cell[2]
+        matpart = f'{num} {rho}' if num != 0 else '0'
+        if kind == 'plain':
+            lines.append(f'{k} {matpart} {geom} imp:n=1')
+        elif kind == 'dead':
+            lines.append(f'{k} {matpart} {geom} imp:n=0')
+        elif kind == 'filled':
+            lines.append(f'{k} {matpart} {geom} fill={cell[3]} imp:n=1')
+        elif kind == 'fill0':
+            lines.append(f'{k} 0 {geom} fill={cell[3]} imp:n=1')
+        elif kind == 'fill0dead':
+            lines.append(f'{k} 0 {geom} fill={cell[3]} imp:n=0')
+    if k == 0:
+        k = 1
+        surfs.append('1 so 1')
+        lines.append('1 0 -1 imp:n=1')
+    lines.append(f'{k + 1} 0 {k} imp:n=0')
+    cid = 500
+    for u, (left, right) in sorted(deck['universes'].items()):
+        plane = 900 + u
+        surfs.append(f'{plane} px 0')
+        for (num, rho), geom in ((left, f'-{plane}'), (right, f'{plane}')):
+            cid += 1
+            matpart = f'{num} {rho}' if num != 0 else '0'
+            lines.append(f'{cid} {matpart} {geom} u={u} imp:n=1')
+    data = [render_card(m['head'], tokens_of(m['items']), rng)
+            for m in deck['mats']] + list(deck['others'])
+    rng.shuffle(data)
+    return ('C10 generated deck\n' + '\n'.join(lines) + '\n\n'
+            + '\n'.join(surfs) + '\n\n' + '\n'.join(data) + '\n')
+
+
+def simple_deck(cards, densities, rng):
     '''cards: {num: toks}; densities: {num: [spelling, ...]}. One spherical
     shell per (material, density).'''
     cells, surfs = [], []
@@ -138,12 +350,22 @@ def deck_of(cards, densities, rng):
             cells.append(f'{k} {num} {rho} {inner}-{k} imp:n=1')
             surfs.append(f'{k} so {k}')
     cells.append(f'{k + 1} 0 {k} imp:n=0')
-    mats = [render_card(num, toks, rng) for num, toks in cards.items()]
+    mats = [render_card(f'm{num}', toks, rng) for num, toks in cards.items()]
     return ('C10 generated deck\n' + '\n'.join(cells) + '\n\n'
             + '\n'.join(surfs) + '\n\n' + '\n'.join(mats) + '\n')
 
 
 # ---- implementation side --------------------------------------------------
+
+EXC = {'IndexError': 'EIndex', 'ValueError': 'EValue',
+       'AttributeError': 'EAttribute', 'TypeError': 'EType',
+       'ZeroDivisionError': 'EZeroDiv'}
+
+
+def exc_class(exc):
+    name = type(exc).__name__ if not isinstance(exc, str) else exc
+    return EXC.get(name, name)
+
 
 def impl_card(toks, rng):
     '''compositionConversionMCNPToT4 + extract_isotopes_fractions on a deck
@@ -152,7 +374,7 @@ def impl_card(toks, rng):
         import compositionConversionMCNPToT4
     from t4_geom_convert.Kernel.Composition.ConstructCompositionT4 \
         import extract_isotopes_fractions
-    deck = deck_of({7: toks}, {7: ['-1.0']}, rng)
+    deck = simple_deck({7: toks}, {7: ['-1.0']}, rng)
     with impl.mip_parser(deck) as parser:
         try:
             abund = compositionConversionMCNPToT4(parser)[7]
@@ -161,10 +383,8 @@ def impl_card(toks, rng):
         except ValueError as exc:
             return ('err', 'EMixedSigns' if 'same sign' in str(exc)
                     else 'EValue')
-        except AttributeError:
-            return ('err', 'EAttribute')
-        except IndexError:
-            return ('err', 'EIndex')
+        except (AttributeError, IndexError, TypeError) as exc:
+            return ('err', exc_class(exc))
 
 
 def coq_card_out(out):
@@ -175,100 +395,623 @@ def coq_card_out(out):
     return f'(Ok ({entries}, {flag}))'
 
 
-def spec_card(items):
-    '''Independent reading of an abstract valid card.'''
-    nucs = [it for it in items if 'key' not in it]
-    names = [PERIODIC[it['z'] - 1] + ('-NAT' if it['a'] == 0 else str(it['a']))
-             for it in nucs]
-    return names, [it['frac'] for it in nucs], not nucs[0]['neg']
-
-
-def py_float(spelling):
-    from t4_geom_convert.Kernel.Utils import normalize_float
-    return float(normalize_float(spelling))
-
-
-def oracle_block(items, rho_spelling, comp):
-    '''Property-level check of one written composition against the abstract
-    card. Returns None or a description of the failure.'''
-    names, fracs, atom = spec_card(items)
-    rho = py_float(rho_spelling)
-    got_names = [n for n, _ in comp['items']]
-    if comp['declared'] != len(comp['items']):
-        return 'declared count differs from the number of nuclides'
-    if rho < 0:
-        if comp['type'] != 'DENSITY':
-            return f'negative density but block type {comp["type"]}'
-        if got_names != names:
-            return f'nuclides {got_names} != card {names}'
-        if [a for _, a in comp['items']] != fracs:
-            return 'mass-density fractions are not the card\'s absolute values'
-        if comp['nb_atom'] != atom:
-            return f'NB_ATOM={comp["nb_atom"]} but entries positive={atom}'
-        if abs(impl.mcnp_float(comp['density']) - abs(rho)) > 1e-12 * abs(rho):
-            return 'density value differs'
+def impl_split(content):
+    from MIP.mip import datacard
+    try:
+        return tuple(datacard.split(content))
+    except AttributeError:
         return None
-    if comp['type'] != 'POINT_WISE':
-        return f'atom density but block type {comp["type"]}'
-    if not atom:
-        return None     # unsupported combination: warned about, empty block
+
+
+def impl_materials_of_contents(contents):
+    '''get_material_composition on a parser stub yielding cards with the
+    given contents (exercises Card.parts and the function itself).'''
+    from MIP.geom.composition import get_material_composition
+    from MIP.mip.main import Card
+
+    class Stub:
+        def cards(self, blocks='d', skipcomments=True):
+            for text in contents:
+                yield Card(lines=[text], position=0, type='d')
+    import contextlib
+    import io
+    try:
+        with contextlib.redirect_stdout(io.StringIO()):
+            return ('ok', list(get_material_composition(Stub()).items()))
+    except (ValueError, AttributeError, IndexError, TypeError) as exc:
+        return ('err', exc_class(exc))
+
+
+def data_contents(deck_text):
+    with impl.mip_parser(deck_text) as parser:
+        return [card.content()
+                for card in parser.cards(blocks='d', skipcomments=True)]
+
+
+def convert_capture(deck_text, extra_args=()):
+    '''Whole conversion; the arguments of writeT4Composition are recorded.'''
+    import t4_geom_convert.main as tmain
+    captured = {}
+    orig = tmain.writeT4Composition
+
+    def spy(parser, cells, ofile):
+        captured['cards'] = [card.content() for card in
+                             parser.cards(blocks='d', skipcomments=True)]
+        captured['cells'] = [
+            (key, float(c.importance), int(c.universe), c.fillid is not None,
+             c.materialID, c.density) for key, c in cells.items()]
+        return orig(parser, cells, ofile)
+    tmain.writeT4Composition = spy
+    try:
+        conv = impl.convert(deck_text, extra_args)
+    finally:
+        tmain.writeT4Composition = orig
+    return conv, captured
+
+
+def composition_section(text):
+    '''The bytes from the newline in front of COMPOSITION to the newline
+    after END_COMPOSITION, or None.'''
+    start = text.find('\nCOMPOSITION\n')
+    if start < 0:
+        return None
+    end = text.find('END_COMPOSITION\n', start)
+    if end < 0:
+        return None
+    return text[start:end + len('END_COMPOSITION\n')]
+
+
+def py_norm(spelling):
+    from t4_geom_convert.Kernel.Utils import normalize_float
+    return normalize_float(spelling)
+
+
+def py_fval(spelling):
+    try:
+        return float(py_norm(spelling))
+    except (ValueError, IndexError, TypeError):
+        return None
+
+
+def finite(x):
+    return x is not None and not (math.isnan(x) or math.isinf(x))
+
+
+# ---- independent readers (sweep oracle) ------------------------------------
+
+def read_block(section):
+    '''Line reader of a COMPOSITION section written by the converter.
+    Returns (declared_count, [block dict]) or raises ValueError.'''
+    if not section.endswith('\n'):
+        raise ValueError('section does not end with a newline')
+    lines = section[:-1].split('\n')
+    if lines[:2] != ['', 'COMPOSITION']:
+        raise ValueError('bad opening lines')
+    if lines[-2:] != ['', 'END_COMPOSITION']:
+        raise ValueError('bad closing lines')
+    if not re.fullmatch(r'[0-9]+', lines[2]):
+        raise ValueError(f'bad count line {lines[2]!r}')
+    declared = int(lines[2])
+    blocks = []
+    for line in lines[3:-2]:
+        if line.startswith('  '):
+            if not blocks:
+                raise ValueError('nuclide line before any block')
+            body = line[2:]
+            if body == '' and not blocks[-1]['raw_items']:
+                blocks[-1]['raw_items'].append(None)     # the empty join
+                continue
+            parts = body.split(' ')
+            if len(parts) != 2 or not parts[0] or not parts[1]:
+                raise ValueError(f'bad nuclide line {line!r}')
+            blocks[-1]['raw_items'].append((parts[0], parts[1]))
+            continue
+        words = line.split(' ')
+        if words[0] == 'POINT_WISE' and len(words) == 4:
+            typ, temp, name, count = words
+            blocks.append({'type': typ, 'temp': temp, 'name': name,
+                           'declared': count, 'density': None,
+                           'nb_atom': None, 'raw_items': []})
+        elif words[0] == 'DENSITY' and len(words) == 6 \
+                and words[4] in ('NB_ATOM', ''):
+            typ, temp, name, rho, flag, count = words
+            blocks.append({'type': typ, 'temp': temp, 'name': name,
+                           'declared': count, 'density': rho,
+                           'nb_atom': flag == 'NB_ATOM', 'raw_items': []})
+        else:
+            raise ValueError(f'bad block header {line!r}')
+    for blk in blocks:
+        if not re.fullmatch(r'[0-9]+', blk['declared']):
+            raise ValueError(f'bad count in header of {blk["name"]}')
+        blk['declared'] = int(blk['declared'])
+        raw = blk.pop('raw_items')
+        if raw == [None]:
+            raw = []
+        if None in raw or not (raw or blk['declared'] == 0):
+            raise ValueError(f'bad nuclide lines in {blk["name"]}')
+        blk['items'] = raw
+    return declared, blocks
+
+
+def read_material_cards(deck_text):
+    '''Independent reading of the material cards of a deck text: the data
+    block is what follows the second blank line; a card starts in the first
+    five columns, goes on with lines starting with five blanks or after a
+    trailing &; $ starts a comment.  Returns {number: [tokens]} for the cards
+    named M<digits>.'''
+    blocks = re.split(r'\n[ \t]*\n', deck_text)
+    if len(blocks) < 3:
+        return {}
+    cards, cur, amp = [], None, False
+    for line in blocks[2].split('\n'):
+        code = line.split('$')[0].rstrip()
+        if not code.strip():
+            continue
+        if re.match(r' {0,4}[cC]( |$)', line):
+            continue
+        cont = amp or line.startswith('     ')
+        amp = code.endswith('&')
+        if amp:
+            code = code[:-1]
+        if cont and cur is not None:
+            cur.append(code)
+        else:
+            cur = [code]
+            cards.append(cur)
+    mats = {}
+    for card in cards:
+        words = ' '.join(card).split()
+        m = re.fullmatch(r'[mM]([0-9]+)', words[0]) if words else None
+        if m:
+            mats[int(m.group(1))] = words[1:]
+    return mats
+
+
+def read_card_tokens(toks):
+    '''Independent reading of the entries of a material card: keyword entries
+    (with an = sign) dropped, then (ZAID, fraction) pairs; Z and A by integer
+    arithmetic on the ZAID.  Returns (names, amounts, atom) or None if the
+    card is not a valid one-sign card.'''
+    plain = [t for t in toks if '=' not in t]
+    if len(plain) % 2 or not plain:
+        return None
+    names, amounts, signs = [], [], set()
+    for zaid, frac in zip(plain[0::2], plain[1::2]):
+        number = zaid.split('.')[0]
+        if not number.isdigit():
+            return None
+        z, a = divmod(int(number), 1000)
+        if not 1 <= z <= 118:
+            return None
+        names.append(PERIODIC[z - 1] + ('-NAT' if a == 0 else str(a)))
+        signs.add(frac.startswith('-'))
+        amounts.append(frac[1:] if frac.startswith('-') else frac)
+    if len(signs) != 1:
+        return None
+    return names, amounts, not signs.pop()
+
+
+def expected_uses(deck):
+    '''(material number, density spelling) of every region a converted volume
+    can come from: live level-0 cells without FILL, and the cells of a
+    universe filling a live level-0 cell.'''
+    uses = []
+    for cell in deck['cells']:
+        kind = cell[0]
+        if kind == 'plain' and cell[1] != 0:
+            uses.append((cell[1], cell[2]))
+        elif kind in ('filled', 'fill0'):
+            for num, rho in deck['universes'][cell[3]]:
+                if num != 0:
+                    uses.append((num, rho))
+    return uses
+
+
+def oracle_deck(deck, deck_text, section):
+    '''Property-level check of a written COMPOSITION section against the
+    abstract deck and an independent reading of its text.  Yields
+    (description, class or None).'''
+    try:
+        declared, blocks = read_block(section)
+    except ValueError as exc:
+        yield f'COMPOSITION block cannot be read back: {exc}', None
+        return
+    if declared != len(blocks):
+        yield (f'COMPOSITION declares {declared} compositions but '
+               f'{len(blocks)} are written'), None
+    if not blocks or (blocks[-1]['type'], blocks[-1]['name'],
+                      blocks[-1]['items']) != \
+            ('POINT_WISE', 'm0', [('HE4', '1E-30')]):
+        yield 'the void composition m0 HE4 1E-30 is not the last block', None
+    names_seen = [b['name'] for b in blocks]
+    if len(set(names_seen)) != len(names_seen):
+        yield f'a composition name is written twice: {names_seen}', None
+    cards = read_material_cards(deck_text)
+    generated = {m['num']: tokens_of(m['items']) for m in deck['mats']}
+    if cards != generated:
+        yield ('harness: independent card reader disagrees with the '
+               f'generator: {cards} vs {generated}'), None
+        return
+    groups = {}
+    for num, rho in expected_uses(deck):
+        groups.setdefault((num, impl.mcnp_float(rho)), set()).add(rho)
+    by_group = {}
+    for blk in blocks[:-1]:
+        m = re.fullmatch(r'm([0-9]+)_(.+)', blk['name'])
+        if not m or str(int(m.group(1))) != m.group(1):
+            yield f'composition name {blk["name"]!r} is not m<int>_<density>', None
+            continue
+        try:
+            key = (int(m.group(1)), impl.mcnp_float(m.group(2)))
+        except ValueError:
+            yield f'composition name {blk["name"]!r}: density is not a number', None
+            continue
+        if key not in groups:
+            yield (f'composition {blk["name"]} is written but no converted '
+                   'cell uses that material at that density'), None
+            continue
+        by_group.setdefault(key, []).append(blk)
+        if blk['temp'] != '300':
+            yield f'composition {blk["name"]}: temperature {blk["temp"]}', None
+        yield from oracle_block(cards[key[0]], key[1], blk)
+    for key, spellings in groups.items():
+        got = by_group.get(key, [])
+        if not got:
+            yield (f'material {key[0]} at density {key[1]} is used by a '
+                   'converted cell but has no composition'), None
+        elif len(got) > len(spellings):
+            yield (f'material {key[0]} at density {key[1]}: {len(got)} '
+                   f'compositions for {len(spellings)} spelling(s)'), None
+
+
+def oracle_block(toks, rho, blk):
+    '''One written block against the independent reading of its card.'''
+    name = blk['name']
+    spec = read_card_tokens(toks)
+    if spec is None:
+        yield f'harness: card of {name} is not a valid one-sign card', None
+        return
+    names, amounts, atom = spec
+    got_names = [n for n, _ in blk['items']]
+    if blk['declared'] != len(blk['items']):
+        yield (f'{name}: declares {blk["declared"]} nuclides, lists '
+               f'{len(blk["items"])}'), None
+    if rho < 0:
+        if blk['type'] != 'DENSITY':
+            yield f'{name}: mass density but block type {blk["type"]}', None
+            return
+        if got_names != names:
+            yield f'{name}: nuclides {got_names} != card {names}', None
+        elif [a for _, a in blk['items']] != amounts:
+            yield (f'{name}: amounts {[a for _, a in blk["items"]]} are not '
+                   f'the card\'s absolute values {amounts}'), None
+        else:
+            for (nuc, amount) in blk['items']:
+                if not impl.is_t4_number(amount):
+                    yield (f'{name}: amount {amount!r} of {nuc} is copied in '
+                           'a spelling that is not a plain decimal number'), \
+                        CLS_FORTRAN if fortran_only(amount) else None
+                    break
+        if blk['nb_atom'] != atom:
+            yield (f'{name}: NB_ATOM={blk["nb_atom"]} but entries '
+                   f'positive={atom}'), None
+        try:
+            written = impl.mcnp_float(blk['density'])
+        except ValueError:
+            written = None
+        if written is None or abs(written - abs(rho)) > 1e-12 * abs(rho):
+            yield f'{name}: density value {blk["density"]} != |{rho}|', None
+        return
+    if blk['type'] != 'POINT_WISE':
+        yield f'{name}: atom density but block type {blk["type"]}', None
+        return
+    if not atom and not blk['items'] and blk['declared'] == 0:
+        yield (f'{name}: card with mass fractions used at an atom density: '
+               'the composition is written without any nuclide'), CLS_EMPTY
+        return
     if got_names != names:
-        return f'nuclides {got_names} != card {names}'
-    concs = [impl.mcnp_float(a) for _, a in comp['items']]
-    fvals = [py_float(f) for f in fracs]
+        yield f'{name}: nuclides {got_names} != card {names}', None
+        return
+    if not atom:
+        return      # mass fractions at an atom density, converted somehow
+    try:
+        concs = [float(a) for _, a in blk['items']]
+    except ValueError:
+        yield f'{name}: a concentration is not a number', None
+        return
+    fvals = [impl.mcnp_float(f) for f in amounts]
+    total = math.fsum(fvals)
     if abs(math.fsum(concs) - rho) > 1e-12 * max(1.0, abs(rho)):
-        return f'concentrations sum to {math.fsum(concs)} not {rho}'
+        yield f'{name}: concentrations sum to {math.fsum(concs)} not {rho}', None
     for c, f in zip(concs, fvals):
-        if abs(c * fvals[0] - concs[0] * f) > 1e-12 * max(abs(c * fvals[0]),
-                                                         1e-300):
-            return 'concentrations not proportional to the atom fractions'
-    return None
+        if abs(c - f * rho / total) > 1e-12 * max(abs(c), 1e-300):
+            yield (f'{name}: concentration {c} is not fraction {f} * {rho} / '
+                   f'{total}'), None
+            break
 
 
-DENSITIES = ['-1.0', '-2.7', '-0.001', '-19.1', '0.1', '0.0602', '1.0',
-             '8.5e-2', '4.8-2', '-1.205-3', '2.5', '-11.35']
+# ---- Coq rendering ---------------------------------------------------------
 
+def coq_cell(cell):
+    _key, imp, univ, filled, mat, dens = cell
+    return (f'(mkCell {cfloat(imp)} {cz(univ)} {cbool(filled)} '
+            f'{cz(int(mat))} {copt(dens, cstr)})')
+
+
+def coq_text_case(cards, cells, expected, section):
+    '''Case for Exec.check_text. expected = ('ok', lines) | ('err', cls).'''
+    strings = set()
+    for content in cards:
+        for tok in content.split():
+            strings.add(tok)
+            if tok.startswith('-'):
+                strings.add(tok[1:])
+    dens = sorted({c[5] for c in cells if c[5] is not None})
+    strings.update(dens)
+    norms = clist(cpair(cstr(d), cstr(py_norm(d))) for d in dens)
+    fvals = []
+    for s in sorted(strings):
+        v = py_fval(s)
+        if v is not None and not finite(v):
+            return None
+        fvals.append(cpair(cstr(s), copt(v, cfloat)))
+    rends = []
+    if section is not None:
+        try:
+            _, blocks = read_block(section)
+        except ValueError:
+            blocks = []
+        for blk in blocks:
+            if blk['type'] != 'POINT_WISE':
+                continue
+            amounts = []
+            for _, amount in blk['items']:
+                try:
+                    amounts.append(cpair(cfloat(float(amount)), cstr(amount)))
+                except ValueError:
+                    amounts.append(cpair(cfloat(0.0), cstr(amount)))
+            rends.append(cpair(cstr(blk['name']), clist(amounts)))
+    if expected[0] == 'ok':
+        exp = f'(Ok {clist(cstr(l) for l in expected[1])})'
+    else:
+        exp = f'(Err {expected[1]})'
+    return (f'(mkText {clist(cstr(c) for c in cards)} '
+            f'{clist(coq_cell(c) for c in cells)} {norms} {clist(fvals)} '
+            f'{clist(rends)} {exp})')
+
+
+def ascii_ok(text):
+    return all(32 <= ord(ch) < 127 for ch in text)
+
+
+# ---- known findings --------------------------------------------------------
+
+WITNESS_EMPTY = '''C10 witness: weight fractions used at an atom density
+1 5 0.1 -1 imp:n=1
+2 0 1 imp:n=0
+
+1 so 1
+
+m5 1001 -0.11 8016 -0.89
+'''
+
+
+WITNESS_FORTRAN = '''C10 witness: Fortran spellings of weight fractions
+1 5 -1.0 -1 imp:n=1
+2 0 1 imp:n=0
+
+1 so 1
+
+m5 1001 -1.5d-1 8016 -8.5-1
+'''
+
+
+def witness_fortran(res):
+    conv = impl.convert(WITNESS_FORTRAN)
+    section = composition_section(conv.text or '')
+    if not conv.ok or section is None:
+        res.violation('impl-violation', 'witness deck of class '
+                      f'{CLS_FORTRAN} is rejected: {conv}',
+                      {'input': {'deck': WITNESS_FORTRAN}}, found_input=True)
+        return
+    try:
+        _, blocks = read_block(section)
+    except ValueError as exc:
+        res.violation('impl-violation', f'witness deck: {exc}',
+                      {'input': {'deck': WITNESS_FORTRAN}}, found_input=True)
+        return
+    blk = blocks[0]
+    if blk['items'] == [('H1', '1.5d-1'), ('O16', '8.5-1')]:
+        res.violation('impl-violation',
+                      'card m5 1001 -1.5d-1 8016 -8.5-1 at mass density '
+                      '-1.0: amounts written as 1.5d-1 and 8.5-1',
+                      {'input': {'deck': WITNESS_FORTRAN}, 'observed': blk},
+                      cls=CLS_FORTRAN, found_input=True)
+    res.count('witness:' + CLS_FORTRAN)
+
+
+def witnesses(res):
+    witness_fortran(res)
+    conv = impl.convert(WITNESS_EMPTY)
+    section = composition_section(conv.text or '')
+    if not conv.ok or section is None:
+        res.violation('impl-violation', 'witness deck of class '
+                      f'{CLS_EMPTY} is rejected: {conv}',
+                      {'input': {'deck': WITNESS_EMPTY}}, found_input=True)
+        return
+    try:
+        _, blocks = read_block(section)
+    except ValueError as exc:
+        res.violation('impl-violation', f'witness deck: {exc}',
+                      {'input': {'deck': WITNESS_EMPTY}}, found_input=True)
+        return
+    blk = blocks[0]
+    if blk['name'] == 'm5_0.1' and blk['declared'] == 0 and not blk['items']:
+        res.violation('impl-violation',
+                      'card m5 (H1 0.11, O16 0.89 by weight) used at atom '
+                      'density 0.1: composition m5_0.1 written without '
+                      'nuclides', {'input': {'deck': WITNESS_EMPTY},
+                                   'observed': blk},
+                      cls=CLS_EMPTY, found_input=True)
+    res.count('witness:' + CLS_EMPTY)
+
+
+# ---- run -------------------------------------------------------------------
 
 def run(res, tier, seed, proofs_ok):
     rng = random.Random(seed)
-    n_valid = 250 if tier == 'quick' else 2500
-    n_bad = 200 if tier == 'quick' else 1500
-    res.rule = ('abstract material cards (1-30 nuclides, Z in 1..118, mass '
-                'numbers incl. 000, library suffixes, keyword entries, 19 '
-                'fraction spellings, one sign per card) rendered with '
-                'continuation lines, plus a malformed stream (mixed signs, '
-                'Z>118, Z=0, short or alphabetic ZAID, missing fraction); '
-                'non-trivial = a card with >= 2 nuclides or a fault; distinct '
-                'by token list')
+    quick = tier == 'quick'
+    n_valid = 250 if quick else 2500
+    n_bad = 200 if quick else 1500
+    res.rule = ('abstract material cards (1-30 entries, Z in 1..118, mass '
+                'numbers incl. 000, leading zeros, library suffixes, keyword '
+                'entries in every position, repeated nuclides, 25 fraction '
+                'spellings, one sign per card) rendered with continuation '
+                'lines / & / $ comments, plus a malformed stream (mixed '
+                'signs, Z>118, Z=0, short or alphabetic ZAID, missing '
+                'fraction, keyword between ZAID and fraction, no nuclide); '
+                'whole decks with 1-5 materials (several densities in '
+                'several spellings, used only by dead / filled / universe / '
+                'never-filled-universe cells, unused) and mt/mx/mode/... '
+                'cards; non-trivial = a card with >= 2 nuclides or a fault, '
+                'a deck; distinct by token list / deck text')
+    witnesses(res)
+    run_symbols(res)
+    run_split(res, rng, quick)
+    run_cards(res, rng, n_valid, n_bad)
+    run_decks(res, rng, 70 if quick else 700)
 
-    # ---- symbols ----
+
+def run_symbols(res):
     from t4_geom_convert.Kernel.Composition.EIsotopeNameElementT4 \
         import EIsotopeNameElement
     from t4_geom_convert.Kernel.Composition.EIsotopeAtomicNumberMCNP \
         import EIsotopeAtomicNumber
     sym_cases = []
     for z in range(1, 119):
-        name = EIsotopeNameElement(getattr(EIsotopeAtomicNumber,
-                                           str(z)).value).name
+        try:
+            name = EIsotopeNameElement(getattr(EIsotopeAtomicNumber,
+                                               str(z)).value).name
+        except (AttributeError, ValueError):
+            name = '<none>'
         sym_cases.append(cpair(cn(z), cstr(name)))
+        if name != PERIODIC[z - 1]:
+            res.violation('impl-violation',
+                          f'element enums give {name} for Z={z}',
+                          {'input': {'z': z}, 'expected': PERIODIC[z - 1],
+                           'theorem_or_correspondence': 'sweep:symbols'},
+                          cls=None, found_input=True)
     bad, errs = common.run_case_files('c10_sym', HEADER, 'N * string',
                                       'check_symbol', sym_cases)
-    res.obligation('tie:symbols (118 enum entries vs Model.symbol)',
+    res.obligation('tie:symbols (118 enum entries vs the model tables)',
                    not bad and not errs, f'bad={bad} {errs}')
-    for idx in bad:
-        z = idx + 1
-        res.violation('impl-violation',
-                      f'element enum gives a wrong symbol for Z={z}',
-                      {'input': {'z': z},
-                       'expected': PERIODIC[z - 1],
-                       'theorem_or_correspondence': 'tie:symbols'},
-                      cls=None, found_input=True)
     n_enum = len(list(EIsotopeNameElement))
     if n_enum != 118 or len(list(EIsotopeAtomicNumber)) != 118:
         res.violation('impl-violation', 'element enums do not have 118 entries',
                       {'input': {'len': n_enum}}, found_input=True)
 
-    # ---- card-level tie ----
+
+def gen_content(rng):
+    '''One-line content of a data card, of many shapes.'''
+    kind = rng.random()
+    n = rng.randint(0, 130)
+    if kind < 0.35:
+        head = rng.choice(['m', 'M']) + rng.choice(['', '0', '00']) + str(n)
+        toks = tokens_of(gen_card(rng, valid=True)[0])[:8]
+        sep = rng.choice([' ', '  '])
+        return rng.choice(['', ' ', '  ']) + head + sep + sep.join(toks) \
+            + rng.choice(['', ' '])
+    if kind < 0.7:
+        return rng.choice(['', ' ']) + rng.choice(OTHER_CARDS).format(n=n)
+    if kind < 0.8:
+        return rng.choice(['m', 'M', ' m ', 'm ' + str(n), 'm*' + str(n),
+                           f'm{n}*', f'*m{n} 1001 1', f'm{n}', f'm{n} ',
+                           f'*tr{n} 0 0 0', f'tr{n}* 1 2 3', f'{n} m',
+                           '', ' ', f'{n}', '*', '** a1', 'imp:n 1 1 0',
+                           f'm{n}1001 1', f'm {n} 1001 1', f'mm{n} 1',
+                           f'm{n}m 1', f'M{n}\t1001 1'])
+    alphabet = 'mM 0159*:=.-+abctx'
+    return ''.join(rng.choice(alphabet) for _ in range(rng.randint(0, 8)))
+
+
+def run_split(res, rng, quick):
+    contents = [gen_content(rng) for _ in range(400 if quick else 3000)]
+    cases, meta = [], []
+    for content in contents:
+        if not ascii_ok(content.replace('\t', ' ')):
+            continue
+        content = content.replace('\t', ' ')
+        out = impl_split(content)
+        exp = copt(out, lambda t: cpair(*(cstr(x) for x in t)))
+        cases.append(cpair(cstr(content), exp))
+        meta.append((content, out))
+        res.seen(('content', content), nontrivial=out is not None)
+        res.count('split:' + ('nomatch' if out is None else
+                              'material' if (out[2] + out[0]).lower() == 'm'
+                              else 'other'))
+    bad, errs = common.run_case_files(
+        'c10_split', HEADER,
+        'string * option (string * string * string * string)',
+        'check_split', cases)
+    res.obligation(f'tie:split ({len(cases)} card contents: model data_split '
+                   '= datacard.split)', not bad and not errs,
+                   f'{len(bad)} disagreements {errs[:1]}')
+    for idx in bad[:5]:
+        content, out = meta[idx]
+        res.violation('correspondence',
+                      f'data_split differs on {content!r}: impl={out}',
+                      {'input': {'content': content}, 'observed': out,
+                       'theorem_or_correspondence': 'tie:split'},
+                      found_input=False)
+    # whole data blocks
+    cases, meta = [], []
+    for _ in range(120 if quick else 1200):
+        block = [gen_content(rng).replace('\t', ' ')
+                 for _ in range(rng.randint(0, 6))]
+        if rng.random() < 0.7:
+            block = [c for c in block if impl_split(c) is not None
+                     and not re.fullmatch(r'\s*[mM]', c)]
+        out = impl_materials_of_contents(block)
+        if out[0] == 'ok':
+            exp = '(Ok ' + clist(cpair(cn(k), clist(cstr(t) for t in v))
+                                 for k, v in out[1]) + ')'
+            # independent expectation of WHICH cards are material cards
+            want = {}
+            for content in block:
+                m = re.match(r'\s*[mM]([0-9]+)(.*)$', content)
+                if m and not m.group(2).startswith('*'):
+                    want[int(m.group(1))] = m.group(2).split()
+            if list(want.items()) != out[1]:
+                res.violation(
+                    'impl-violation',
+                    f'material cards of {block} read as {out[1]}, expected '
+                    f'{want}', {'input': {'contents': block},
+                                'observed': out[1], 'expected': want},
+                    found_input=True)
+        else:
+            exp = f'(Err {out[1]})'
+        cases.append(cpair(clist(cstr(c) for c in block), exp))
+        meta.append((block, out))
+        res.seen(('block', block), nontrivial=len(block) >= 2)
+        res.count('materials:' + (out[1] if out[0] == 'err' else
+                                  f'{min(len(out[1]), 4)}'))
+    bad, errs = common.run_case_files(
+        'c10_mats', HEADER, 'list string * res (list (N * list string))',
+        'check_materials', cases)
+    res.obligation(f'tie:materials ({len(cases)} data blocks: model '
+                   'get_materials = get_material_composition)',
+                   not bad and not errs,
+                   f'{len(bad)} disagreements {errs[:1]}')
+    for idx in bad[:5]:
+        block, out = meta[idx]
+        res.violation('correspondence',
+                      f'get_materials differs on {block}: impl={out}',
+                      {'input': {'contents': block}, 'observed': out,
+                       'theorem_or_correspondence': 'tie:materials'},
+                      found_input=False)
+
+
+def run_cards(res, rng, n_valid, n_bad):
     cards = []
     for i in range(n_valid + n_bad):
         items, fault = gen_card(rng, valid=i < n_valid)
@@ -284,17 +1027,21 @@ def run(res, tier, seed, proofs_ok):
         res.count('fault:' + str(fault))
         res.count('impl:' + (out[1] if out[0] == 'err' else 'ok'))
         res.count(f'nuclides:{min(len(nucs), 10)}{"+" if len(nucs) > 10 else ""}')
+        names = [(it['z'], it['a']) for it in nucs]
+        if len(set(names)) < len(names):
+            res.count('card:repeated-nuclide')
         # property-level oracle on the implementation's own result
         if fault is None:
-            names, fracs, atom = spec_card(items)
-            if out[0] != 'ok' or [n for n, _ in out[1]] != names \
-                    or [f for _, f in out[1]] != fracs or out[2] != atom:
+            spec = read_card_tokens(toks)
+            got = (None if out[0] != 'ok' else
+                   ([n for n, _ in out[1]], [f for _, f in out[1]], out[2]))
+            if spec is None or got != spec:
                 res.violation('impl-violation',
                               'composition of a valid card differs from the '
                               f'card: {toks} -> {out}',
                               {'input': {'tokens': toks, 'items': items},
-                               'expected': [names, fracs, atom],
-                               'observed': out}, found_input=True)
+                               'expected': spec, 'observed': out},
+                              found_input=True)
         elif fault == 'mixed' and out[0] == 'ok':
             res.violation('impl-violation',
                           f'mixed-sign card accepted: {toks}',
@@ -321,83 +1068,89 @@ def run(res, tier, seed, proofs_ok):
                        'theorem_or_correspondence': 'tie:card'},
                       found_input=False)
 
-    # ---- whole conversion: COMPOSITION block of the written file ----
-    n_decks = 60 if tier == 'quick' else 500
-    block_cases, block_meta = [], []
-    for _ in range(n_decks):
-        k = rng.randint(1, 4)
-        mats = {}
-        dens = {}
-        abstract = {}
-        for num in rng.sample(range(1, 60), k):
-            items, _ = gen_card(rng, valid=True)
-            abstract[num] = items
-            mats[num] = tokens_of(items)
-            dens[num] = rng.sample(DENSITIES, rng.choice([1, 1, 2]))
-        deck = deck_of(mats, dens, rng)
-        conv = impl.convert(deck)
-        if not conv.ok:
+
+def conv_error_class(conv):
+    if conv.exc == 'ValueError' and 'same sign' in conv.msg:
+        return 'EMixedSigns'
+    return EXC.get(conv.exc, conv.exc)
+
+
+def run_decks(res, rng, n_decks):
+    text_cases, text_meta = [], []
+    n_known = {}
+    for i in range(n_decks):
+        deck = gen_deck(rng)
+        broken = None
+        if i % 10 == 9:
+            # a faulty card somewhere (used or not): the run must fail, the
+            # model must fail the same way
+            victim = rng.choice(deck['mats'])
+            victim['items'], broken = gen_card(rng, valid=False)
+        text = render_deck(deck, rng)
+        conv, cap = convert_capture(text)
+        res.seen(text)
+        res.count('deck:' + ('broken:' + broken if broken else 'valid'))
+        for role in deck['roles'].values():
+            res.count('role:' + role)
+        section = composition_section(conv.text or '') if conv.ok else None
+        if broken is None:
+            if not conv.ok or section is None:
+                res.violation('impl-violation',
+                              f'valid deck rejected: {conv.exc}: '
+                              f'{conv.msg[:200]}',
+                              {'input': {'deck': text}}, found_input=True)
+                continue
+            for why, cls in oracle_deck(deck, text, section):
+                if cls is not None:
+                    n_known[cls] = n_known.get(cls, 0) + 1
+                    if n_known[cls] > 3:
+                        continue
+                res.violation('impl-violation', why,
+                              {'input': {'deck': text},
+                               'theorem_or_correspondence': 'sweep:decks'},
+                              cls=cls, found_input=True)
+        elif broken == 'mixed' and conv.ok:
             res.violation('impl-violation',
-                          f'valid deck rejected: {conv.exc}: {conv.msg[:200]}',
-                          {'input': {'deck': deck}}, found_input=True)
+                          'deck with a mixed-sign material card converted',
+                          {'input': {'deck': text}}, found_input=True)
+        if 'cells' not in cap:
+            if conv.ok:
+                res.violation('correspondence',
+                              'writeT4Composition was not called',
+                              {'input': {'deck': text},
+                               'theorem_or_correspondence': 'tie:text'},
+                              found_input=False)
             continue
-        t4 = impl.T4File(conv.text)
-        comps = {c['name']: c for c in t4.compositions}
-        from t4_geom_convert.Kernel.Utils import normalize_float
-        for num, spellings in dens.items():
-            for rho in spellings:
-                name = f'm{num}_{normalize_float(rho)}'
-                comp = comps.get(name)
-                res.seen((mats[num], rho))
-                if comp is None:
-                    res.violation('impl-violation',
-                                  f'no composition {name} in the written file',
-                                  {'input': {'deck': deck}}, found_input=True)
-                    continue
-                why = oracle_block(abstract[num], rho, comp)
-                if why:
-                    res.violation('impl-violation',
-                                  f'composition {name}: {why}',
-                                  {'input': {'deck': deck},
-                                   'observed': comp}, found_input=True)
-                names, fracs, atom = spec_card(abstract[num])
-                fvals = [py_float(f) for f in fracs]
-                if comp['type'] == 'DENSITY':
-                    expected = (f'(BDensity {cbool(comp["nb_atom"])} '
-                                + clist(cstr(n) for n, _ in comp['items'])
-                                + ')')
-                else:
-                    expected = ('(BPointWise '
-                                + clist(cpair(cstr(n), cfloat(impl.mcnp_float(a)))
-                                        for n, a in comp['items']) + ')')
-                block_cases.append(cpair(
-                    clist(cstr(t) for t in mats[num]),
-                    clist(cfloat(v) for v in fvals),
-                    cfloat(py_float(rho)), expected))
-                block_meta.append((deck, num, rho, comp))
-                res.count('block:' + comp['type'])
-    if block_meta:
-        res.sample({'deck': block_meta[0][0], 'composition': block_meta[0][3]})
-    bad, errs = common.run_case_files(
-        'c10_block', HEADER,
-        'list string * list float * float * block (T:=float)', 'check_block',
-        block_cases)
-    res.obligation(f'tie:block ({len(block_cases)} written compositions: '
-                   'model block_of at binary64 = file)', not bad and not errs,
+        if conv.ok:
+            expected = ('ok', section[:-1].split('\n'))
+        else:
+            expected = ('err', conv_error_class(conv))
+        if not all(ascii_ok(c) for c in cap['cards']):
+            continue
+        case = coq_text_case(cap['cards'], cap['cells'], expected, section)
+        if case is None:
+            continue
+        text_cases.append(case)
+        text_meta.append((text, expected))
+    if text_meta:
+        res.sample({'deck': text_meta[0][0],
+                    'composition_lines': text_meta[0][1][1]})
+    bad, errs = common.run_case_files('c10_text', HEADER, 'text_case',
+                                      'check_text', text_cases, chunk=40)
+    res.obligation(f'tie:text ({len(text_cases)} whole conversions: the '
+                   'COMPOSITION block byte for byte = model '
+                   'composition_lines)', not bad and not errs,
                    f'{len(bad)} disagreements {errs[:1]}')
     for idx in bad[:10]:
-        deck, num, rho, comp = block_meta[idx]
-        why = oracle_block_safe(deck, num, rho, comp)
+        text, expected = text_meta[idx]
+        model, _ = common.coq_eval(HEADER, 'model_text ' + text_cases[idx])
         res.violation('correspondence',
-                      f'written composition m{num} ({rho}) differs from the '
-                      'model',
-                      {'input': {'deck': deck}, 'observed': comp,
-                       'theorem_or_correspondence': 'tie:block'},
+                      'COMPOSITION block differs from the model: '
+                      f'impl={str(expected)[:300]} model={str(model)[:300]}',
+                      {'input': {'deck': text}, 'observed': expected,
+                       'model': model,
+                       'theorem_or_correspondence': 'tie:text'},
                       found_input=False)
-
-
-def oracle_block_safe(*_args):
-    return None
 
 
 def replay(path):
@@ -405,16 +1158,42 @@ def replay(path):
     data = json.load(open(path))
     inp = data.get('input', {})
     if 'deck' in inp:
-        conv = impl.convert(inp['deck'])
+        conv, cap = convert_capture(inp['deck'])
         print('conversion:', conv)
-        if conv.text:
-            t4 = impl.T4File(conv.text)
-            for comp in t4.compositions:
-                print(comp)
+        print('warnings:', [w for w in conv.warnings if 'unclosed' not in w])
+        section = composition_section(conv.text or '')
+        print('COMPOSITION section:', repr(section))
+        if section is not None:
+            try:
+                declared, blocks = read_block(section)
+                print('declared', declared)
+                for blk in blocks:
+                    print(' ', blk)
+            except ValueError as exc:
+                print('cannot be read back:', exc)
+        print('independent reading of the cards:',
+              {k: read_card_tokens(v)
+               for k, v in read_material_cards(inp['deck']).items()})
+        if 'cells' in cap:
+            expected = ('ok', section[:-1].split('\n')) if conv.ok and section \
+                else ('err', conv_error_class(conv))
+            case = coq_text_case(cap['cards'], cap['cells'], expected, section)
+            if case:
+                model, _ = common.coq_eval(HEADER, 'model_text ' + case)
+                print('model:', model)
     elif 'tokens' in inp:
         print('implementation:', impl_card(inp['tokens'], random.Random(0)))
         model, _ = common.coq_eval(HEADER, 'convert_card '
                                    + clist(cstr(t) for t in inp['tokens']))
+        print('model:', model)
+    elif 'content' in inp:
+        print('implementation:', impl_split(inp['content']))
+        model, _ = common.coq_eval(HEADER, 'data_split ' + cstr(inp['content']))
+        print('model:', model)
+    elif 'contents' in inp:
+        print('implementation:', impl_materials_of_contents(inp['contents']))
+        model, _ = common.coq_eval(
+            HEADER, 'get_materials ' + clist(cstr(c) for c in inp['contents']))
         print('model:', model)
     print('recorded:', data.get('what'))
     return 0
